@@ -397,8 +397,15 @@ func (e *Engine) checkClausesBound(fn *ssa.Function, fc *FuncContract, res *Func
 		if len(props) == 0 {
 			props = fc.Props
 		}
-		res.Obligs = append(res.Obligs, &Oblig{Name: fmt.Sprintf("%s/callsite(%s)#%d", disp, cs.Callee, cs.Clause.Ord), Fn: disp, Kind: "unbound", Props: props,
-			Text: "at call " + cs.Callee + ": " + cs.Clause.Text + " [UNBOUND: no call of " + cs.Callee + " is met on any explored path]", Engines: map[string]int{}})
+		ob := &Oblig{Name: fmt.Sprintf("%s/callsite(%s)#%d", disp, cs.Callee, cs.Clause.Ord), Fn: disp, Kind: "unbound", Props: props,
+			Text: "at call " + cs.Callee + ": " + cs.Clause.Text + " [UNBOUND: no call of " + cs.Callee + " is met on any explored path]", Engines: map[string]int{}}
+		if fc.Opts["strict"] == "true" {
+			// opt strict=true: for this function a clause that no longer binds is a failure (the contract is the
+			// only guard of what it states, so drift between contract and code must not pass silently)
+			ob.Kind, ob.Instances = "contract-drift", 1
+			ob.Failures = append(ob.Failures, &Failure{Status: "static", Trace: []string{"no call of " + cs.Callee + " is met"}})
+		}
+		res.Obligs = append(res.Obligs, ob)
 	}
 	n := len(e.loopsOf(fn).list)
 	var ords []int
@@ -410,8 +417,13 @@ func (e *Engine) checkClausesBound(fn *ssa.Function, fc *FuncContract, res *Func
 		if ord >= 1 && ord <= n {
 			continue
 		}
-		res.Obligs = append(res.Obligs, &Oblig{Name: fmt.Sprintf("%s/loop%d", disp, ord), Fn: disp, Kind: "unbound", Props: fc.Props,
-			Text: fmt.Sprintf("loop %d clauses [UNBOUND: the function has %d loop(s)]", ord, n), Engines: map[string]int{}})
+		ob := &Oblig{Name: fmt.Sprintf("%s/loop%d", disp, ord), Fn: disp, Kind: "unbound", Props: fc.Props,
+			Text: fmt.Sprintf("loop %d clauses [UNBOUND: the function has %d loop(s)]", ord, n), Engines: map[string]int{}}
+		if fc.Opts["strict"] == "true" {
+			ob.Kind, ob.Instances = "contract-drift", 1
+			ob.Failures = append(ob.Failures, &Failure{Status: "static", Trace: []string{fmt.Sprintf("the function has %d loop(s)", n)}})
+		}
+		res.Obligs = append(res.Obligs, ob)
 	}
 }
 
@@ -764,6 +776,19 @@ func (e *Engine) verifyShard(fn *ssa.Function, fc *FuncContract, opts VerifyOpts
 		if o := x.obligs[x.curFnName+"/assigns"]; o != nil && o.Instances == 0 {
 			o.Instances, o.Unsat = 1, 1
 			o.Engines["no-heap-write-on-any-path"]++
+		}
+	}
+	for ord, lc := range fc.Loops {
+		if lc.NoPanic != nil && shard <= 0 {
+			props := lc.NoPanic.Props
+			if len(props) == 0 {
+				props = fc.Props
+			}
+			ob := x.oblig(fmt.Sprintf("%s/loop%d.nopanic", x.curFnName, ord), "loop-nopanic", props, fn.Pos(), lc.NoPanic.Text)
+			if ob.Instances == 0 {
+				ob.Instances, ob.Unsat = 1, 1
+				ob.Engines["no-panicking-path"]++
+			}
 		}
 	}
 	if fc.NoPanic {
